@@ -51,7 +51,14 @@ Families == {
   [id |-> "cyc_lt",      kind |-> "unbounded", linear |-> FALSE], \* local a = [a]; a < a
   [id |-> "cyc_str",     kind |-> "unbounded", linear |-> FALSE], \* local a = [a]; std.toString(a)
   [id |-> "cyc_man",     kind |-> "unbounded", linear |-> FALSE], \* local a = {x: a}; a   (manifestation)
-  [id |-> "cyc_objeq",   kind |-> "unbounded", linear |-> FALSE]  \* local a = {x: a}; a == a
+  [id |-> "cyc_objeq",   kind |-> "unbounded", linear |-> FALSE], \* local a = {x: a}; a == a
+  \* `tailstrict` on a call that is NOT in tail position (its result is still needed by an operator,
+  \* a type check or an enclosing call): every level keeps a frame, the limit bounds the depth
+  [id |-> "ts_or",       kind |-> "finite", linear |-> TRUE],     \* n == 0 || f(n - 1) tailstrict
+  [id |-> "ts_and",      kind |-> "finite", linear |-> TRUE],     \* true && f(n - 1) tailstrict
+  [id |-> "ts_plus",     kind |-> "finite", linear |-> TRUE],     \* 1 + f(n - 1) tailstrict
+  [id |-> "ts_arg",      kind |-> "finite", linear |-> TRUE],     \* id(f(n - 1) tailstrict)
+  [id |-> "ts_elem",     kind |-> "finite", linear |-> TRUE]      \* [f(n - 1) tailstrict][0]
 }
 
 KindOf(f) == (CHOOSE x \in Families : x.id = f).kind
